@@ -44,16 +44,18 @@ AInit ==
     /\ up = TRUE /\ garbage = {}
 
 \* a write starts: any target content
-Begin(w) ==
-    /\ up /\ ~InFlight /\ w \in [Units -> Contents] /\ w # pre
-    /\ post' = w
+Begin ==
+    /\ up /\ ~InFlight
+    /\ post' \in [Units -> Contents] /\ post' # pre
     /\ UNCHANGED <<durable, pre, up, seen, garbage>>
 
-\* one unit receives ALL of the in-flight write's changes to it, atomically
+\* one unit receives ALL of the in-flight write's changes to it, atomically (a rename may
+\* consume the unit's temporary file in the same step)
 Commit(u) ==
     /\ up /\ InFlight /\ durable[u] # post[u]
     /\ durable' = [durable EXCEPT ![u] = post[u]]
-    /\ UNCHANGED <<pre, post, up, seen, garbage>>
+    /\ garbage' \in {garbage, garbage \ {u}}
+    /\ UNCHANGED <<pre, post, up, seen>>
 
 \* the write is acknowledged only when every unit holds it
 Ack ==
@@ -61,10 +63,15 @@ Ack ==
     /\ pre' = post
     /\ UNCHANGED <<durable, post, up, seen, garbage>>
 
-\* a snapshot (or another temp-file protocol) is interrupted or still running
+\* a snapshot (or another temp-file protocol) starts, is interrupted, or completes without
+\* changing what the unit reads as; the temporary file is never read
 Leave(u) ==
     /\ up
     /\ garbage' = garbage \cup {u}
+    /\ UNCHANGED <<durable, pre, post, up, seen>>
+Clean(u) ==
+    /\ up /\ u \in garbage
+    /\ garbage' = garbage \ {u}
     /\ UNCHANGED <<durable, pre, post, up, seen>>
 
 \* the kill: completed steps persist, the in-flight write stays as far as it got
@@ -74,7 +81,8 @@ Crash ==
     /\ pre' = durable /\ post' = durable
     /\ UNCHANGED <<durable, seen, garbage>>
 
-\* the next start always succeeds and reads exactly the durable content
+\* the next start always succeeds and reads exactly the durable content, whatever
+\* temporary files are lying around
 Recover ==
     /\ ~up
     /\ up' = TRUE
@@ -82,8 +90,8 @@ Recover ==
     /\ UNCHANGED <<durable, pre, post, garbage>>
 
 ANext ==
-    \/ \E w \in [Units -> Contents] : Begin(w)
-    \/ \E u \in Units : Commit(u) \/ Leave(u)
+    \/ Begin
+    \/ \E u \in Units : Commit(u) \/ Leave(u) \/ Clean(u)
     \/ Ack \/ Crash \/ Recover
 
 ASpec == AInit /\ [][ANext]_avars
@@ -97,6 +105,9 @@ AtomicPerUnit == \A u \in Units : durable[u] \in {pre[u], post[u]}
 
 \* with nothing in flight the durable state is exactly the acknowledged one
 AckedDurable == ~InFlight => durable = pre
+
+\* a restart returns exactly what was durable, whatever `garbage` is (LeftoversIgnored)
+RecoverReadsDurable == [][(~up /\ up') => seen' = durable]_avars
 
 TypeOKAbs ==
     /\ durable \in [Units -> Contents] /\ pre \in [Units -> Contents]
